@@ -633,7 +633,15 @@ class CancelScope(BaseCancelScope):
         Restart the cancellation effort in the closest directly cancelled parent scope.
 
         """
-        scope = self._parent_scope
+        self._restart_cancellation(self._parent_scope)
+
+    @staticmethod
+    def _restart_cancellation(scope: CancelScope | None) -> None:
+        """
+        Restart the cancellation effort in the given scope or, failing that, the
+        closest directly cancelled parent scope visible from it.
+
+        """
         while scope is not None:
             if scope._cancel_called:
                 if scope._cancel_handle is None:
@@ -911,6 +919,11 @@ class TaskGroup(abc.TaskGroup):
         self._tasks.add(task)
         if sys.version_info >= (3, 14) and self.cancel_scope._host_task is not None:
             asyncio.future_add_to_awaited_by(task, self.cancel_scope._host_task)
+
+        # If the task group has already been cancelled but there was nothing left to
+        # deliver the cancellation to (e.g. the host task is in a shielded scope), make
+        # sure the new task gets cancelled too
+        CancelScope._restart_cancellation(self.cancel_scope)
 
         task.add_done_callback(task_done)
         return handle
